@@ -78,7 +78,7 @@ impl State {
     }
 
     /// Judge one problem JSON. `judge` = C16 configuration (one account per client).
-    pub fn on_get(&mut self, c: usize, pname: &str, j: &serde_json::Value, tasks: &BTreeMap<u64, TaskMeta>, judge: bool, exact: bool) -> Option<Violation> {
+    pub fn on_get(&mut self, c: usize, acct: &str, pname: &str, j: &serde_json::Value, tasks: &BTreeMap<u64, TaskMeta>, judge: bool, exact: bool) -> Option<Violation> {
         if !judge {
             return None;
         }
@@ -142,7 +142,11 @@ impl State {
                 let parse_tasks: Vec<&TaskMeta> = tasks.values().filter(|t| t.client == c && t.adf_name == pname && t.task == "Parse" && t.doc_id == prob.doc_id).collect();
                 let finished = parse_tasks.iter().any(|t| !t.died && (t.ended || t.timed_out) && t.cont == crate::world::Cont::Done);
                 if finished && exact && acs["parse_only"]["type"].as_str() != Some("Error") && self.faulted_docs.is_empty() && !stale {
-                    return Some(Violation::new("C-errors", "no-error-reported", format!("get {pname}: parsing of {text:?} is over but parse_only shows {}", acs["parse_only"])));
+                    let v = Violation::new("C-errors", "no-error-reported", format!("get {pname}: parsing of {text:?} is over but parse_only shows {}", acs["parse_only"]));
+                    // the error is a result like any other: lost if the owner's name changed
+                    // while the parse task was in flight (open finding, keyed by cause)
+                    let across_rename = !acct.is_empty() && parse_tasks.iter().filter(|t| !t.died && t.cont == crate::world::Cont::Done).all(|t| t.username != acct);
+                    return Some(if across_rename { v.with_key("E-liveness/user.rs:update_user/task-in-flight-across-rename".to_string()) } else { v });
                 }
                 None
             }
@@ -229,7 +233,12 @@ impl State {
     }
 
     /// (E) bounded liveness at quiescence.
-    pub fn final_liveness(&mut self, c: usize, pname: &str, j: &serde_json::Value, solves: &[(usize, String, String, u64)], tasks: &BTreeMap<u64, TaskMeta>, faults: bool) -> Option<Violation> {
+    /// `acct`: the account name the client holds at the end. A background task stores its result
+    /// under the account name it was started with; if the client changed its name (or, as a
+    /// temporary user, registered) while the task was in flight, that write matches nothing and
+    /// the result is lost — real behaviour of the pinned tree, keyed by cause (open finding).
+    pub fn final_liveness(&mut self, c: usize, acct: &str, pname: &str, j: &serde_json::Value, solves: &[(usize, String, String, u64)], tasks: &BTreeMap<u64, TaskMeta>, faults: bool) -> Option<Violation> {
+        const RENAME_KEY: &str = "E-liveness/user.rs:update_user/task-in-flight-across-rename";
         if faults {
             return None;
         }
@@ -239,9 +248,12 @@ impl State {
         }
         let acs = &j["acs_per_strategy"];
         // parse result present (Some or Error) once the parse task of this document is over
-        let parse_over = tasks.values().any(|t| !t.died && t.client == c && t.adf_name == pname && t.task == "Parse" && t.doc_id == prob.doc_id && t.cont == crate::world::Cont::Done);
-        if parse_over && acs["parse_only"]["type"].as_str() == Some("None") {
-            return Some(Violation::new("E-liveness", "parse-result-never-stored", format!("final get {pname}: parse task over, continuation completed, parse_only still None")));
+        let parse_task = tasks.values().find(|t| !t.died && t.client == c && t.adf_name == pname && t.task == "Parse" && t.doc_id == prob.doc_id && t.cont == crate::world::Cont::Done);
+        if let Some(pt) = parse_task {
+            if acs["parse_only"]["type"].as_str() == Some("None") {
+                let v = Violation::new("E-liveness", "parse-result-never-stored", format!("final get {pname}: parse task (started under account {:?}, client is {acct:?} now) over, continuation completed, parse_only still None", pt.username));
+                return Some(if !acct.is_empty() && pt.username != acct { v.with_key(RENAME_KEY.to_string()) } else { v });
+            }
         }
         for (sc, sp, strat, tid) in solves {
             if *sc != c || sp != pname {
@@ -258,7 +270,8 @@ impl State {
             let any_failed = solves.iter().any(|(c2, p2, s2, t2)| c2 == sc && p2 == sp && s2 == strat && tasks.get(t2).map(|x| x.doc_id == t.doc_id && (x.timed_out || x.panicked || x.died)).unwrap_or(false));
             let ok = if any_failed { ty == "Some" || ty == "Error" } else { ty == "Some" };
             if !ok {
-                return Some(Violation::new("E-liveness", "solve-result-missing", format!("final get {pname}: solve {strat} was acknowledged, its task ended (timed out: {}) and its write completed, but {f} shows {}", t.timed_out, clipv(&acs[f]))));
+                let v = Violation::new("E-liveness", "solve-result-missing", format!("final get {pname}: solve {strat} was acknowledged (task started under account {:?}, client is {acct:?} now), its task ended (timed out: {}) and its write completed, but {f} shows {}", t.username, t.timed_out, clipv(&acs[f])));
+                return Some(if !acct.is_empty() && t.username != acct { v.with_key(RENAME_KEY.to_string()) } else { v });
             }
         }
         None
